@@ -97,6 +97,16 @@ Theorem C19_node_quadrature :
 Proof. exact quadrature_all. Qed.
 Print Assumptions C19_node_quadrature.
 
+(* unbounded, for every matrix a: the bushy tree with n leaves has n+1 vertices, density n+1 and elementary
+   weight (row sum of a)^n -- so the bushy-tree members of C19_order_conditions are exactly quadrature
+   conditions on the row sums, which C19_nodes_are_row_sums identifies with the nodes and
+   C19_node_quadrature states on the literal node list *)
+Theorem C19_bushy_tree_is_row_sum_power :
+  forall a n, order (bushy n) = S n /\ (gamma (bushy n) == inject_Z (Z.of_nat (S n)))%Q /\
+    Forall2 Qeq (Phi a (bushy n)) (map (fun r => qpow (dotq r (ones a)) n) a).
+Proof. exact (fun a n => conj (bushy_order n) (conj (bushy_gamma n) (bushy_Phi a n))). Qed.
+Print Assumptions C19_bushy_tree_is_row_sum_power.
+
 (* non-vacuity: ten methods, 23 tree shapes up to order five *)
 Example C19_nonvacuous : length methods = 10 /\ length (all_upto 5) = 23.
 Proof. vm_compute. split; reflexivity. Qed.
